@@ -9,6 +9,7 @@ import (
 	"bytes"
 	"context"
 	"encoding/json"
+	"errors"
 	"fmt"
 	"io"
 	"os"
@@ -16,6 +17,7 @@ import (
 	"sort"
 	"strings"
 	"testing"
+	"testing/iotest"
 	"time"
 	"verif/internal/after"
 
@@ -383,6 +385,41 @@ func check(c Case) error {
 			return fmt.Errorf("%s/%s: the destination *os.File was closed (every write fails) but render returned nil", c.Prog, c.Entry)
 		}
 		return nil
+	case "badreader":
+		// RenderReader is given a source that fails after K bytes with an error that is not
+		// io.EOF (a network stream that resets): either an error and nothing written, or nil
+		// and the complete document - never nil with the document of a truncated template
+		if p.Fails || p.FileOnly {
+			return nil
+		}
+		var ref bytes.Buffer
+		if err := p.Run(ctx, "reader", &ref); err != nil {
+			return fmt.Errorf("%s/reader: reference render failed: %v", c.Prog, err)
+		}
+		src := p.Files["page.vuego"]
+		k := c.K
+		if k >= len(src) {
+			k = len(src) - 1
+		}
+		if k < 0 {
+			return nil
+		}
+		w := newSink(c.Dest)
+		var rd io.Reader = io.MultiReader(strings.NewReader(src[:k]), failingReader{})
+		if c.ErrKind == "onebyte" {
+			rd = iotest.OneByteReader(rd)
+		}
+		err := p.Engine(p.FS()).New().Fill(p.GoData()).RenderReader(ctx, w.W, rd)
+		if err != nil {
+			if len(w.Got()) != 0 {
+				return fmt.Errorf("%s: the template source failed after %d of %d bytes: RenderReader returned %v but had written %d bytes: %q", c.Prog, k, len(src), err, len(w.Got()), w.Got())
+			}
+			return nil
+		}
+		if !bytes.Equal(w.Got(), ref.Bytes()) {
+			return fmt.Errorf("%s: the template source failed after %d of %d bytes (a read error that is not io.EOF) but RenderReader returned nil; the writer got %d bytes, the complete document has %d\n--- got: %.300s", c.Prog, k, len(src), len(w.Got()), ref.Len(), w.Got())
+		}
+		return nil
 	case "cancelmid":
 		// the context is live at the call and cancelled DURING evaluation (by a template
 		// function): either nothing is written and an error is returned, or the complete
@@ -441,6 +478,21 @@ func stringWriter(dest string, w io.Writer) io.Writer {
 	}
 	return w
 }
+
+// deepProg reports whether a catalogue program is one of the long, deeply nested ones.
+func deepProg(p cat.Program) bool {
+	for _, f := range p.Feat {
+		if f == "deep" {
+			return true
+		}
+	}
+	return false
+}
+
+// failingReader fails every Read with an error that is not io.EOF.
+type failingReader struct{}
+
+func (failingReader) Read([]byte) (int, error) { return 0, errors.New("source stream reset") }
 
 var identRe = regexp.MustCompile(`[A-Za-z_][A-Za-z0-9_]{1,20}`)
 
@@ -678,6 +730,72 @@ func TestProp(t *testing.T) {
 			each(Case{Prog: p.Name, Entry: e, Mode: "cancelmid", K: 1})
 			for k := 0; k < 4; k++ {
 				each(Case{Prog: p.Name, Entry: e, Mode: "procfail", K: k})
+			}
+		}
+	}
+	// the other doors to the same renders: the *Vue methods (no context, no layouts), RenderNodes
+	// over loaded nodes, View, Assign key by key, Fill before Load, New(WithFS(..)); and a
+	// template SOURCE that fails part-way through RenderReader
+	for _, p := range cat.All() {
+		var doors []string
+		doors = append(doors, cat.VueEntries...)
+		doors = append(doors, cat.NodesEntry)
+		doors = append(doors, cat.MoreEntries...)
+		for di, e := range doors {
+			if !p.Applicable(e) {
+				continue
+			}
+			each(Case{Prog: p.Name, Entry: e, Mode: "ref"})
+			if !run.Thorough() && (di+len(p.Name))%3 != 0 {
+				continue // quick: the failing-writer sweep through a rotating third of the doors per program
+			}
+			each(Case{Prog: p.Name, Entry: e, Mode: "ref", Dest: dests[1+(len(p.Name)+len(e))%(len(dests)-1)]})
+			if p.Fails {
+				continue
+			}
+			var ref bytes.Buffer
+			if err := p.Run(context.Background(), e, &ref); err != nil {
+				continue // reported by the ref case
+			}
+			step := run.Pick(13, 2)
+			for k := 0; k <= ref.Len(); k++ {
+				if deepProg(p) && k%53 != 0 && k < ref.Len()-20 {
+					continue
+				}
+				if k%step == (len(p.Name)+len(e))%step || k >= ref.Len()-2 {
+					each(Case{Prog: p.Name, Entry: e, Mode: "failat", K: k, Dest: []string{"", "sw"}[k%2]})
+				}
+			}
+			cw := &fw.Capture{}
+			_ = p.Run(context.Background(), e, cw)
+			for k := 0; k < cw.Writes; k += run.Pick(5, 1) {
+				if deepProg(p) && k%11 != 0 {
+					continue
+				}
+				each(Case{Prog: p.Name, Entry: e, Mode: "failnth", K: k})
+			}
+			for _, max := range []int{0, 3, 16, 64} {
+				each(Case{Prog: p.Name, Entry: e, Mode: "refuse", K: max})
+			}
+			for _, k := range []int{0, 1, 7, 40} {
+				each(Case{Prog: p.Name, Entry: e, Mode: "fullcount", K: k})
+			}
+			each(Case{Prog: p.Name, Entry: e, Mode: "closedfile"})
+			if e != "vue" && e != "frag" && e != cat.NodesEntry {
+				each(Case{Prog: p.Name, Entry: e, Mode: "cancel"})
+				each(Case{Prog: p.Name, Entry: e, Mode: "deadline", K: len(e)})
+			}
+		}
+		if !p.Fails && !p.FileOnly {
+			src := p.Files["page.vuego"]
+			step := run.Pick(9, 1)
+			if deepProg(p) {
+				step = run.Pick(211, 53)
+			}
+			for k := 0; k < len(src); k++ {
+				if k%step == len(p.Name)%step || k < 3 || k >= len(src)-3 {
+					each(Case{Prog: p.Name, Entry: "reader", Mode: "badreader", K: k, Dest: dests[k%len(dests)], ErrKind: []string{"", "onebyte"}[k%2]})
+				}
 			}
 		}
 	}
